@@ -14,7 +14,8 @@ Flat(toks, srcs, conts, ign) == [kind |-> "regular", toks |-> toks, sources |-> 
 SecMaps == { Flat(<<>>, <<>>, <<>>, <<>>),
              Flat(<<Tok(0, 0, 0, 1, 1, -1, 0)>>, <<SA>>, << <<"ca">> >>, <<>>),
              Flat(<<Tok(0, 1, 0, 2, 2, 0, 0), Tok(1, 0, 1, 3, 3, -1, 0)>>, <<SB, SA>>, << <<>>, <<"ca2">> >>, <<1>>),
-             Flat(<<Tok(0, 0, -1, 0, 0, -1, 0), Tok(0, 2, 0, 4, 4, -1, 1)>>, <<SB>>, << <<"cb">> >>, <<0>>) }
+             Flat(<<Tok(0, 0, -1, 0, 0, -1, 0), Tok(0, 2, 0, 4, 4, -1, 1)>>, <<SB>>, << <<"cb">> >>, <<0>>),
+             Flat(<<Tok(0, 0, 0, 5, 5, -1, 0)>>, <<SA>>, << <<"">> >>, <<>>) }      \* present but EMPTY contents
 NestedMaps == IF Nested THEN { [kind |-> "index", file |-> <<>>, sections |-> << [off |-> <<0, 1>>, url |-> <<>>, map |-> <<m>>] >>] : m \in SecMaps }
               ELSE {}
 Queries == {<<l, c>> : l \in 0..3, c \in 0..6}
